@@ -57,9 +57,14 @@ func c19RunProviders(c *fw.Ctx, idp *harness.FakeIdP) {
 		pv := provs[x.Choose("provider", len(provs))]
 		an := answers[x.Choose("revocation-answer", len(answers))]
 		withRefresh := x.Choose("session-has-refresh-token", 2) == 0
+		// what tokens look like: plain, standard base64 (with '+', '/' and '='), with separators in them
+		shape := []string{"plain", "standard-base64", "with-separators"}[x.Choose("token-shape", 3)]
+		suffix := map[string]string{"plain": "", "standard-base64": "+dG9rZW4/d2l0aA==", "with-separators": "&token=other;x=%41 y"}[shape]
 		calls := 0
+		var received []string
 		idp.Answer = func(cl *harness.IdPCall) harness.AuthAnswer {
 			calls++
+			received = append(received, cl.Form.Get("token"))
 			a := an.a
 			if an.name == "first-call-503-then-200" && calls > 1 {
 				a = ans(200, `{}`)
@@ -67,7 +72,7 @@ func c19RunProviders(c *fw.Ctx, idp *harness.FakeIdP) {
 			cl.Answer = describeAnswer(a)
 			return a
 		}
-		s := &sessions.SessionState{AccessToken: "idp-access-token", RefreshToken: "idp-refresh-token", Email: "bob@corp.test"}
+		s := &sessions.SessionState{AccessToken: "idp-access-token" + suffix, RefreshToken: "idp-refresh-token" + suffix, Email: "bob@corp.test"}
 		if !withRefresh {
 			s.RefreshToken = ""
 		}
@@ -80,8 +85,8 @@ func c19RunProviders(c *fw.Ctx, idp *harness.FakeIdP) {
 		if !owned {
 			return
 		}
-		d := map[string]interface{}{"provider": pv.name, "identity_provider_answer": an.name, "session_has_refresh_token": withRefresh, "revoke_returned": fmt.Sprint(rerr), "identity_provider_calls": calls}
-		c.Res.Outcome(fmt.Sprintf("provider-revocation|%s|%s|%v|%v|%d", pv.name, an.name, withRefresh, rerr == nil, calls))
+		d := map[string]interface{}{"token_shape": shape, "provider": pv.name, "identity_provider_answer": an.name, "session_has_refresh_token": withRefresh, "revoke_returned": fmt.Sprint(rerr), "identity_provider_calls": calls}
+		c.Res.Outcome(fmt.Sprintf("provider-revocation|%s|%s|%v|%s|%v|%d", pv.name, an.name, withRefresh, shape, rerr == nil, calls))
 		viol := func(key, what string) {
 			c.Res.Violate(fw.Violation{Property: "C19", Key: "C19/provider-revocation/" + key, What: what, Scenario: "provider-revocation", Choices: x.Choices(), Detail: d})
 		}
@@ -96,6 +101,16 @@ func c19RunProviders(c *fw.Ctx, idp *harness.FakeIdP) {
 			}
 			if calls == 0 {
 				viol(pv.name+"/reported-revoked-without-asking", pv.name+".Revoke reported success without calling the identity provider")
+			}
+			// what the identity provider was asked to revoke is one of this session's tokens, character for character
+			named := false
+			for _, t := range received {
+				if t != "" && (t == s.AccessToken || t == s.RefreshToken) {
+					named = true
+				}
+			}
+			if calls > 0 && !named && (withRefresh || pv.name == "google") {
+				viol(pv.name+"/revoked-another-token/"+shape, fmt.Sprintf("%s.Revoke reported success, but the identity provider was asked to revoke %q, which is none of the session's tokens", pv.name, received))
 			}
 		}
 	})
